@@ -693,6 +693,18 @@ class TextXVisitor(RRELVisitor):
             rule_name, root_rule = children
             rule_params = {}
 
+        if rule_name.startswith("__asgn"):
+            # The parser model marks the expressions created for assignments
+            # by such names.
+            line, col = self.grammar_parser.pos_to_linecol(node.position)
+            raise TextXSemanticError(
+                f'Rule name "{rule_name}" is reserved (names starting with '
+                f'"__asgn" are used internally) at {(line, col)}.',
+                line,
+                col,
+                filename=self.metamodel.file_name,
+            )
+
         if root_rule.rule_name.startswith("__asgn") or (
             rule_params and not isinstance(root_rule, (Sequence, OrderedChoice))
         ):
